@@ -39,7 +39,7 @@ def role_step(rng, role, rep, fb="mixed"):
         return {"a": "wrtp", "s": 3, "w": 5, "id": 1, "len": 40, "shape": 3, "fail": False, "rep": rep}
     if role in ("r2a", "r2b"):
         return {"a": "rrtp", "s": 2, "w": 100 if role == "r2a" else 40000, "id": 1, "len": 30, "shape": 0, "tw": 100 if role == "r2a" else 40000,
-                "fail": False, "rep": rep}
+                "fail": False, "rep": rep, "inc": 2 if role == "r2a" else 1}     # r2a delivers every second number: the NACK scan has work
     if role == "r4":
         return {"a": "rrtp", "s": 4, "w": 7, "id": 1, "len": 30, "shape": 0, "tw": 20000, "fail": False, "rep": rep}
     if role == "c1":
@@ -72,10 +72,13 @@ def script(rng, kinds, roles, rep):
              {"a": "bindl", "s": 3, "nack": True, "twcc": twcc, "rtx": False, "fec": False},
              {"a": "bindm", "s": 2, "nack": True, "twcc": 7, "pli": False},
              {"a": "bindm", "s": 4, "nack": False, "twcc": 7, "pli": False},
+             {"a": "wait", "ms": 5},      # (the statistics recorders are started by a goroutine per stream)
              # a prior history, so that feedback about packets 1000.. (transport-wide numbers 0..) names sent packets
              {"a": "par", "par": [{"a": "wrtp", "s": 1, "w": 1000, "id": 1, "len": 20, "shape": 0, "fail": False, "rep": 40}]},
              {"a": "par", "par": [role_step(rng, r, rep, fb) for r in roles]},
              {"a": "wait", "ms": 3}]
+    if "stats" in kinds and "close" not in roles:
+        steps += [{"a": "stats", "s": 1}, {"a": "stats", "s": 2}, {"a": "stats", "s": 3}, {"a": "stats", "s": 4}]
     if "close" not in roles:
         steps.append({"a": "close"})
     return {"members": members, "steps": steps, "watch": 20000, "settle": 10}
